@@ -15,7 +15,7 @@ def write_cfg(tmp, name, text):
 
 
 def mc_run(report, module, cfg_path, *, label, dump=True, acts=True, workers=8, timeout=1500, env=None, coverage=False,
-           must_hold=True, heap="4g"):
+           must_hold=True, heap="4g", cwd=None, library=None):
     """Model-check; returns dict(states=[...], acts=[...], out=text).  A violated property of the
     *specification* on the unchanged design is a machinery error (the design is the reference)."""
     tmp = tla.scratch("mc-")
@@ -28,7 +28,8 @@ def mc_run(report, module, cfg_path, *, label, dump=True, acts=True, workers=8, 
             e["VERIF_ACTS"] = os.path.join(tmp, "acts.json")
         if coverage:
             args += ["-coverage", "1"]
-        out, wall = tla.run_tlc(module, cfg_path, workers=workers, args=args, env=e, timeout=timeout, heap=heap)
+        out, wall = tla.run_tlc(module, cfg_path, workers=workers, args=args, env=e, timeout=timeout, heap=heap,
+                                **({"cwd": cwd, "library": library} if cwd else {}))
         if must_hold and not tla.mc_ok(out):
             raise tla.MachineryError(f"specification {module} ({label}) violates its own properties "
                                      f"[{tla.mc_violation(out)}]:\n{out[-3000:]}")
